@@ -19,13 +19,15 @@ ScalarTable == <<
   Sc("literal", <<"|", "line1", "line2">>, "line1\nline2\n"), Sc("literal", <<"|-", "line1", "line2">>, "line1\nline2"), Sc("literal", <<"|", "one">>, "one\n"),
   Sc("literal", <<"|-", "a: b", "# not a comment">>, "a: b\n# not a comment"), Sc("literal", <<"|", "p1", "", "p2">>, "p1\n\np2\n"),
   Sc("folded", <<">-", "folded text">>, "folded text"), Sc("folded", <<">", "folded text">>, "folded text\n"),
+  \* flow scalars folded over two lines, the empty plain scalar (a null written as nothing)
+  Sc("plain", <<"word1", "word2">>, "word1 word2"), Sc("double", <<"\"fold", "ed\"">>, "fold ed"), Sc("single", <<"'a", "b'">>, "a b"), Sc("plain", <<"">>, ""),
   \* block scalars whose first line starts with blanks need the indentation indicator
   Sc("literal", <<"|2", " indented", "second">>, " indented\nsecond\n"), Sc("literal", <<"|2-", "  two", "x">>, "  two\nx"), Sc("folded", <<">2", " lead", "next">>, " lead\nnext\n"),
   \* @U1@: non-ASCII text (concretised by the harness: TLC cannot print it)
   Sc("plain", <<"@U1@">>, "@U1@"), Sc("double", <<"\"@U1@\"">>, "@U1@"), Sc("single", <<"'@U1@'">>, "@U1@"), Sc("literal", <<"|-", "@U1@", "x">>, "@U1@\nx"),
   \* @U2@: non-ASCII text of the basic multilingual plane only
   Sc("plain", <<"@U2@">>, "@U2@"), Sc("double", <<"\"@U2@\"">>, "@U2@"), Sc("single", <<"'@U2@'">>, "@U2@"), Sc("literal", <<"|-", "@U2@", "x">>, "@U2@\nx") >>
-InFlowOK(n) == n.k \in {"alias"} \/ (n.k = "scalar" /\ n.st \in {"plain", "single", "double"}) \/ (n.k \in {"map", "seq"} /\ (n.st = "flow" \/ n.es = <<>>))
+InFlowOK(n) == n.k \in {"alias"} \/ (n.k = "scalar" /\ n.st \in {"plain", "single", "double"} /\ Len(n.src) = 1 /\ n.src[1] # "") \/ (n.k \in {"map", "seq"} /\ (n.st = "flow" \/ n.es = <<>>))
 
 Colls == << MapN("block", <<E("k1", Plain("v1")), E("k2", Plain("2"))>>), SeqN("block", <<Plain("i1"), Plain("2")>>),
             MapN("flow", <<E("k1", Plain("v1")), E("k2", Plain("2"))>>), SeqN("flow", <<Plain("i1"), Plain("2")>>),
@@ -50,7 +52,10 @@ Values == [i \in 1..(Len(ScalarTable) * 6) |-> Deco(ScalarTable[((i - 1) \div 6)
 \* ---- templates: T(t, x) places the value x
 NTemplates == 13
 HCd(x, h) == IF h THEN With(x, "hc", "head comment") ELSE x
-Applicable(t, x) == CASE t \in {6, 7} -> InFlowOK(x) /\ x.lc = ""
+IsEmptyPlain(x) == x.k = "scalar" /\ x.src = <<"">>
+\* the null written as nothing is generated as the value of a map key only (`key:`), where hand-written files have it
+Applicable(t, x) == IF IsEmptyPlain(x) /\ t \notin {1, 2, 3, 12} THEN FALSE ELSE
+                    CASE t \in {6, 7} -> InFlowOK(x) /\ x.lc = ""
                       [] t \in {4, 5} -> ~(IsBlockColl(x) /\ (Pre(x) # "" \/ x.lc # ""))
                       [] t \in {9, 10, 11} -> x.anc = ""
                       [] t \in {12, 13} -> ~IsBlockScalar(x)
@@ -74,7 +79,7 @@ T(t, x, h) ==
 
 \* ---- layouts
 Other == MapN("block", <<E("other", Plain("doc"))>>)
-NLayouts == 18
+NLayouts == 20
 Layout(l, r) ==
   CASE l = 1 -> <<Doc(<<>>, FALSE, r, "")>>
     [] l = 2 -> <<Doc(<<>>, TRUE, r, "")>>
@@ -93,6 +98,8 @@ Layout(l, r) ==
     [] l = 15 -> <<Doc(<<"title", "^indented", "", "section">>, FALSE, r, "")>>
     [] l = 17 -> <<Doc(<<>>, TRUE, Plain(""), ""), Doc(<<>>, TRUE, r, "")>>                 \* an empty document first
     [] l = 18 -> <<Doc(<<>>, FALSE, r, ""), Doc(<<>>, TRUE, Plain(""), "")>>                \* ... and last
+    [] l = 19 -> <<DocC(<<>>, "doc comment", r, "")>>                                        \* `--- # doc comment`
+    [] l = 20 -> <<Doc(<<>>, FALSE, Other, ""), DocC(<<"before">>, "second doc", r, "foot comment")>>
     [] l = 16 -> <<Doc(<<"lead one", "", "lead two">>, TRUE, r, "foot comment")>>
 \* a scalar / flow root cannot carry a foot comment line that the reader would attach elsewhere: kept (the comment list decides)
 
